@@ -49,6 +49,13 @@ type w7Script struct {
 	PongExtend bool      `json:"pong_extend,omitempty"`
 	WFault     w7WFault  `json:"wfault"`
 
+	// multi mode: several connections of mode "read" live in one run (one bubble, one
+	// scheduler, shared process-wide pools of the package under test)
+	Sub     []*w7Script `json:"sub,omitempty"`
+	AdvPool bool        `json:"adv_pool,omitempty"` // sync.Pool.Get may return any pooled object
+	Yield   bool        `json:"yield,omitempty"`    // every Read of the simulated conn is a scheduling point
+	SeedOff int         `json:"seed_off,omitempty"` // payload seeds start here (distinct payloads per connection)
+
 	// rt mode
 	Level   int     `json:"level,omitempty"`
 	Ops     []w7WOp `json:"ops,omitempty"`
@@ -73,6 +80,15 @@ type w7Gen struct {
 	sc     *w7Script
 	seed   int
 	frames []w7Frame
+	// compMost: three of four data messages are compressed when the extension is on
+	// (multi mode: the shared inflater/deflater pools are what the connections have in common)
+	compMost bool
+}
+
+// w7GenOpt tunes w7GenReadOpt for connections that share a run with others.
+type w7GenOpt struct {
+	multi   bool
+	seedOff int
 }
 
 func (g *w7Gen) nextSeed() int { g.seed++; return g.seed }
@@ -128,6 +144,11 @@ func (g *w7Gen) dataMessage(anom string) {
 	} else if c.Intn(3) == 0 {
 		kind = 2
 	}
+	if g.compMost && kind == 3 {
+		// multi mode: only payload kinds that are unique per seed (the cross-connection
+		// check attributes a stretch of payload to the connection it was generated for)
+		kind = 1
+	}
 	if anom == "badtext" {
 		op, kind = 1, 0
 		if n < 4 {
@@ -135,6 +156,9 @@ func (g *w7Gen) dataMessage(anom string) {
 		}
 	}
 	compressed := sc.Comp && c.Intn(2) == 0
+	if g.compMost && sc.Comp && !compressed {
+		compressed = c.Intn(2) == 0
+	}
 	if anom == "atlimit" {
 		// a valid message of exactly the permitted size
 		if compressed && sc.DecompLimit > 0 {
@@ -381,6 +405,51 @@ func (g *w7Gen) anomaly(anom string) {
 		f.DeclSet = true
 		f.Decl = []uint64{1<<63 - 1, 1 << 62, 1 << 32, 1 << 31, 1<<31 - 1}[c.Intn(5)]
 		g.frames = append(g.frames, f)
+	case "hugecont":
+		// a fragmented message whose continuation frame announces a length close to 2^63
+		// (legal as a frame length: most significant bit clear). Only the header and some
+		// payload are in the stream. With a read limit the announced total exceeds it at
+		// that header; the sum of the fragment lengths may or may not fit in 63 bits; the
+		// payload that is present may or may not itself exceed the limit (if it does, not
+		// even a reader that counts arriving bytes instead of announced ones may let it pass).
+		lim := int(g.sc.ReadLimit)
+		a := 1 + c.Intn(30)
+		if lim > 0 && a > lim {
+			a = lim
+		}
+		f1 := g.base(1+c.Intn(2), false)
+		f1.GenLen, f1.GenSeed, f1.GenKind = a, g.nextSeed(), 1
+		g.frames = append(g.frames, f1)
+		for c.Intn(3) == 0 {
+			g.frames = append(g.frames, g.ctlFrame())
+		}
+		if c.Intn(4) == 0 {
+			// a small middle fragment: the counter is carried over more than one frame
+			fm := g.base(0, false)
+			fm.GenLen, fm.GenSeed, fm.GenKind = c.Intn(10), g.nextSeed(), 1
+			g.frames = append(g.frames, fm)
+			a += fm.GenLen
+		}
+		f2 := g.base(0, c.Intn(2) == 0)
+		f2.LenMode, f2.DeclSet = 2, true
+		switch c.Pick(3, 2, 2, 1, 1) {
+		case 0:
+			f2.Decl = 1<<63 - 1 // sum >= 2^63
+		case 1:
+			f2.Decl = 1<<63 - uint64(a) // sum == 2^63 exactly
+		case 2:
+			f2.Decl = 1<<63 - uint64(a) - 1 // sum == 2^63-1: the largest that still fits
+		case 3:
+			f2.Decl = 1<<63 - 1 - uint64(c.Intn(1<<20))
+		default:
+			f2.Decl = []uint64{1 << 62, 1 << 40, 1 << 32}[c.Intn(3)]
+		}
+		n := c.Intn(40)
+		if lim > 0 && lim <= 1000 && c.Intn(2) == 0 {
+			n = lim + 1 + c.Intn(64) // more than the limit is physically present
+		}
+		f2.GenLen, f2.GenSeed, f2.GenKind = n, g.nextSeed(), 1
+		g.frames = append(g.frames, f2)
 	case "overdeclared":
 		// declares more than present: the following frames become payload
 		f := g.base(1+c.Intn(2), true)
@@ -412,26 +481,47 @@ var w7Anomalies = []string{"resop", "rsv23", "rsv1ctl", "badmask", "ctllong", "f
 	"badclosecode", "badcloseutf8", "close1", "closelong"}
 
 func w7GenRead(c *simrt.Choice, prop, tier string) *w7Script {
+	return w7GenReadOpt(c, prop, tier, w7GenOpt{})
+}
+
+func w7GenReadOpt(c *simrt.Choice, prop, tier string, opt w7GenOpt) *w7Script {
 	sc := &w7Script{Mode: "read", Trunc: -1}
 	sc.WFault.At = -1
 	sc.Server = c.Intn(4) != 0
 	sc.Comp = c.Intn(2) == 0
 	sc.ReadLimit = []int64{0, 0, 64, 125, 1000, 65536}[c.Intn(6)]
+	if opt.multi {
+		// connections that share a run have the process-wide flate pools in common:
+		// compression is on, limits are mostly off or generous so that the streams get far
+		sc.Comp = true
+		sc.ReadLimit = []int64{0, 0, 0, 1000, 65536}[c.Intn(5)]
+	}
 	if sc.Comp {
 		sc.DecompLimit = []int64{0, 0, 100, 1000, 4096}[c.Intn(5)]
+		if opt.multi {
+			sc.DecompLimit = []int64{0, 0, 0, 1000, 4096}[c.Intn(5)]
+		}
 	}
 	sc.ReadBuf = []int{0, 0, 1, 125, 126, 200, 1024}[c.Intn(7)]
 	sc.WriteBuf = []int{0, 16, 256}[c.Intn(3)]
 	sc.Pool = c.Intn(4) == 0
-	g := &w7Gen{c: c, sc: sc}
+	sc.SeedOff = opt.seedOff
+	g := &w7Gen{c: c, sc: sc, seed: opt.seedOff, compMost: opt.multi}
 	nItems := 1 + c.Intn(5)
 	if tier == "thorough" {
 		nItems = 1 + c.Intn(10)
+	}
+	if opt.multi {
+		nItems = 2 + c.Intn(5)
 	}
 	closeFocus := prop == "C31"
 	anomAt := -1
 	if c.Intn(5) < 3 {
 		anomAt = c.Intn(nItems)
+	}
+	if opt.multi && c.Intn(3) != 0 {
+		// mostly streams without a planted anomaly: they run to their end
+		anomAt = -1
 	}
 	closed := false
 	for i := 0; i < nItems; i++ {
@@ -440,6 +530,10 @@ func w7GenRead(c *simrt.Choice, prop, tier string) *w7Script {
 			pool = append(pool, w7Anomalies...)
 			if sc.ReadLimit > 0 && sc.ReadLimit < 60000 {
 				pool = append(pool, "overlimit", "overlimitfrag", "overlimit", "overlimitfrag", "atlimit", "atlimit")
+			}
+			pool = append(pool, "hugecont")
+			if sc.ReadLimit > 0 {
+				pool = append(pool, "hugecont", "hugecont")
 			}
 			if sc.DecompLimit > 0 {
 				pool = append(pool, "bomb", "bomb", "bomb", "atlimit", "atlimit")
@@ -569,9 +663,16 @@ type w7ReadRes struct {
 }
 
 func w7NewRealConn(nc *w7Conn, sc *w7Script, server bool, readBuf, writeBuf int) *Conn {
+	return w7NewRealConnPool(nc, sc, server, readBuf, writeBuf, nil)
+}
+
+func w7NewRealConnPool(nc *w7Conn, sc *w7Script, server bool, readBuf, writeBuf int, shared BufferPool) *Conn {
 	var pool BufferPool
 	if sc.Pool {
 		pool = &w7BufPool{}
+		if shared != nil {
+			pool = shared
+		}
 	}
 	c := newConn(nc, server, readBuf, writeBuf, pool, nil, nil)
 	if sc.Comp {
@@ -703,12 +804,43 @@ func w7Feed(s *simrt.Sim, p *w7Pipe, stream []byte, mode int) {
 	}
 }
 
-func w7RunRead(s *simrt.Sim, sc *w7Script, prop string) {
-	w := &w7World{s: s}
+// w7ReadSession is one connection of mode "read": the real reader on a simulated conn,
+// its application task and the task that feeds the peer's bytes.
+type w7ReadSession struct {
+	sc     *w7Script
+	nc     *w7Conn
+	c      *Conn
+	res    *w7ReadRes
+	rdDone chan struct{}
+	fdDone chan struct{}
+	hung   bool
+	ref    *w7Ref // the reference verdict the outcome was compared with (set by check)
+}
+
+// w7WaitDone waits for ch, at most d of virtual time (a reader that never returns must
+// end in a verdict, not in a run that is silently cut off at the idle horizon).
+func w7WaitDone(s *simrt.Sim, ch chan struct{}, d time.Duration) bool {
+	tm := time.NewTimer(d)
+	ok := false
+	select {
+	case <-ch:
+		ok = true
+	case <-tm.C:
+	}
+	tm.Stop()
+	s.Pause()
+	return ok
+}
+
+// w7StartRead sets one connection up and starts its two tasks. shared: BufferPool shared
+// by the connections of a run (nil: a private one when the script asks for a pool).
+func w7StartRead(s *simrt.Sim, w *w7World, sc *w7Script, name string, shared BufferPool, yield, multi bool) *w7ReadSession {
 	stream := w7BuildStream(sc)
 	in := w7NewPipe(w, sc.Seg)
-	nc := &w7Conn{w: w, name: "real", in: in, fault: sc.WFault}
-	c := w7NewRealConn(nc, sc, sc.Server, sc.ReadBuf, sc.WriteBuf)
+	in.yield = yield
+	in.chain = multi
+	nc := &w7Conn{w: w, name: name, in: in, fault: sc.WFault}
+	c := w7NewRealConnPool(nc, sc, sc.Server, sc.ReadBuf, sc.WriteBuf, shared)
 	c.SetReadLimit(sc.ReadLimit)
 	c.SetDecompressedReadLimit(sc.DecompLimit)
 	if sc.DeadlineMs > 0 {
@@ -725,14 +857,13 @@ func w7RunRead(s *simrt.Sim, sc *w7Script, prop string) {
 	if pre := w7RefDecode(stream, w7RefCfg{ExpectMasked: sc.Server, Comp: sc.Comp, ReadLimit: sc.ReadLimit, DecompLimit: sc.DecompLimit}); pre.Term.Kind != "more" && pre.Term.End >= 0 {
 		res.gateOff = pre.Term.End
 	}
-	rdDone := make(chan struct{})
-	fdDone := make(chan struct{})
+	ss := &w7ReadSession{sc: sc, nc: nc, c: c, res: res, rdDone: make(chan struct{}), fdDone: make(chan struct{})}
 	s.Go(func() {
-		defer close(rdDone)
+		defer close(ss.rdDone)
 		w7ReadLoop(w, c, sc.ReadAPI, sc.Chunk, sc.Consume, res)
 	})
 	s.Go(func() {
-		defer close(fdDone)
+		defer close(ss.fdDone)
 		if res.gateOff >= 0 {
 			w7Feed(s, in, stream[:res.gateOff], sc.Feed)
 			// everything runnable runs before virtual time advances: a reader that can
@@ -757,17 +888,34 @@ func w7RunRead(s *simrt.Sim, sc *w7Script, prop string) {
 			in.closeWrite()
 		}
 	})
-	<-rdDone
+	return ss
+}
+
+// wait blocks until the reader has returned and the feeder has ended the stream. A feeder
+// needs at most a quarter of an hour of virtual time (segment pauses, the gate, a stall of
+// ten minutes); once the stream has ended every Read returns EOF or the reset, and nothing
+// else can keep a reader waiting except a write stall of a few seconds. A reader that has
+// not returned after one hour is hung - reported as such, instead of a run that is
+// silently cut off at the simulator's idle horizon.
+func (ss *w7ReadSession) wait(s *simrt.Sim) {
+	if !w7WaitDone(s, ss.rdDone, time.Hour) {
+		ss.hung = true
+	}
+	<-ss.fdDone
 	s.Pause()
-	<-fdDone
-	s.Pause()
-	if sc.Trunc >= 0 {
+	if ss.sc.Trunc >= 0 {
 		s.Fault("truncation")
 	}
-	if len(sc.Flips) > 0 {
+	if len(ss.sc.Flips) > 0 {
 		s.Fault("byte_corruption")
 	}
-	w7CheckRead(s, w, sc, nc, c, res, prop)
+}
+
+func w7RunRead(s *simrt.Sim, sc *w7Script, prop string) {
+	w := &w7World{s: s}
+	ss := w7StartRead(s, w, sc, "real", nil, sc.Yield, false)
+	ss.wait(s)
+	ss.ref = w7CheckRead(s, w, sc, ss.nc, ss.c, ss.res, prop)
 }
 
 // ---------------------------------------------------------------------------------
@@ -903,7 +1051,11 @@ func w7MatchRead(sc *w7Script, ref *w7Ref, nc *w7Conn, res *w7ReadRes) w7Verdict
 		}
 		switch t.Kind {
 		case "proto", "toobig", "inflate":
-			return w7Bad("C29", "reject-"+t.Kind, t.Kind+"["+t.Reason+"]: reader returned "+w7ClassNames(classes), "reference decoder: %s at stream offset %d; the reader returned %v", t, t.Off, res.err)
+			extra := ""
+			if t.Kind == "toobig" && t.Present > 0 {
+				extra = fmt.Sprintf(" (%d payload bytes of that message had been handed over, read limit %d)", t.Present, sc.ReadLimit)
+			}
+			return w7Bad("C29", "reject-"+t.Kind, t.Kind+"["+t.Reason+"]: reader returned "+w7ClassNames(classes), "reference decoder: %s at stream offset %d%s; the reader returned %v", t, t.Off, extra, res.err)
 		case "close":
 			return w7Bad("C29", "close-result", "valid close frame not reported as close error: got "+w7ClassNames(classes), "reference: close frame code %d text %q; the reader returned %v", t.Code, t.Text, res.err)
 		default:
@@ -950,18 +1102,23 @@ func w7CheckRealWire(s *simrt.Sim, prop string, sc *w7Script, nc *w7Conn) *w7Ref
 	return rw
 }
 
-func w7CheckRead(s *simrt.Sim, w *w7World, sc *w7Script, nc *w7Conn, c *Conn, res *w7ReadRes, prop string) {
+func w7CheckRead(s *simrt.Sim, w *w7World, sc *w7Script, nc *w7Conn, c *Conn, res *w7ReadRes, prop string) *w7Ref {
+	ref := w7CheckRead1(s, w, sc, nc, c, res, prop)
+	return ref
+}
+
+func w7CheckRead1(s *simrt.Sim, w *w7World, sc *w7Script, nc *w7Conn, c *Conn, res *w7ReadRes, prop string) (ref *w7Ref) {
 	s.Event("read done msgs=%d err=%v panic=%q wire=%d got=%d", len(res.msgs), res.err, res.panicked, len(nc.wire), len(nc.in.got))
 	if !res.done {
-		s.Violate("C29", "hang", "reader did not return", "the read loop never returned")
-		return
+		s.Violate("C29", "hang", "reader did not return", "the read loop had not returned after one hour of virtual time, long after the peer's stream had ended (%d messages delivered, %d bytes handed over)", len(res.msgs), len(nc.in.got))
+		return nil
 	}
 	if res.panicked != "" {
 		s.Violate("C29", "panic", "reader panicked", "panic in the real reader: %s", res.panicked)
 	}
 	got := nc.in.got
 	cfg := w7RefCfg{ExpectMasked: sc.Server, Comp: sc.Comp, ReadLimit: sc.ReadLimit, DecompLimit: sc.DecompLimit}
-	ref := w7RefDecode(got, cfg)
+	ref = w7RefDecode(got, cfg)
 	v := w7MatchRead(sc, ref, nc, res)
 	if !v.ok && ref.NonMinimal {
 		// RFC 6455 5.2 obliges the sender to use the minimal encoding but does not say
@@ -1147,6 +1304,12 @@ func w7CheckRead(s *simrt.Sim, w *w7World, sc *w7Script, nc *w7Conn, c *Conn, re
 			s.Probe("close_1002_checked")
 		}
 	case "toobig":
+		if ref.Term.Unbounded {
+			// no limit is configured: the reader gave up on a message announced as 2^63 bytes
+			// or more, which the property neither forbids nor ties to a close frame
+			s.Probe("unbounded_message_refused")
+			break
+		}
 		if len(closes) == 0 {
 			if !faulted {
 				s.Violate("C29", "close-frame-toobig", "toobig["+ref.Term.Reason+"]: no close frame written", "reader returned %v but wrote no close frame", res.err)
@@ -1191,4 +1354,5 @@ func w7CheckRead(s *simrt.Sim, w *w7World, sc *w7Script, nc *w7Conn, c *Conn, re
 			s.Violate("C31", "recorded-close-code", "close code recorded although no close frame was observed", "CloseCode() = (%d, incoming=%v)", code, incoming)
 		}
 	}
+	return ref
 }
